@@ -12,3 +12,4 @@ open Qvnt
 #print axioms C04_commute
 #print axioms C04_code_apply
 #print axioms C04_code_mul
+#print axioms C04_code_reg
